@@ -375,7 +375,8 @@ func (p *Prog) checkNonNilGlobal(g *ssa.Global) string {
 				}
 				switch v := st.Val.(type) {
 				case *ssa.Call:
-					if callee := v.Call.StaticCallee(); callee == nil || !nonNilCall[callee.String()] {
+					callee := v.Call.StaticCallee()
+					if callee == nil || (!nonNilCall[callee.String()] && !returnsOnlyClosures(callee)) {
 						return "initialised by a call not known to return non-nil"
 					}
 				case *ssa.MakeInterface, *ssa.Alloc, *ssa.MakeMap, *ssa.MakeClosure, *ssa.Function, *ssa.MakeSlice, *ssa.ChangeType:
@@ -390,4 +391,32 @@ func (p *Prog) checkNonNilGlobal(g *ssa.Global) string {
 		return "never initialised"
 	}
 	return ""
+}
+
+// returnsOnlyClosures: every return of the (module) function returns a function literal.
+func returnsOnlyClosures(fn *ssa.Function) bool {
+	if !inModule(fn) || len(fn.Blocks) == 0 {
+		return false
+	}
+	seen := false
+	for _, b := range fn.Blocks {
+		for _, ins := range b.Instrs {
+			if r, ok := ins.(*ssa.Return); ok {
+				if len(r.Results) != 1 {
+					return false
+				}
+				v := r.Results[0]
+				if ct, ok := v.(*ssa.ChangeType); ok {
+					v = ct.X
+				}
+				switch v.(type) {
+				case *ssa.MakeClosure, *ssa.Function:
+					seen = true
+				default:
+					return false
+				}
+			}
+		}
+	}
+	return seen
 }
